@@ -29,12 +29,13 @@ ASSUMPTIONS = ['ref/match.py decides which (path, route) pairs match; canonical 
                'non-ASCII bytes, it may not change any decoded byte or the pair structure)']
 
 MODES = [M.REDIRECT, M.REWRITE, M.STRICT]
-PLACEMENTS = ['app', 'route', 'embed-inherit', 'embed-own']
+PLACEMENTS = ['app', 'route', 'embed-inherit', 'embed-own', 'cline']
 SEGS = ['a', 'a?b', '#', '%', '%41', 'a b', 'a;b=c', 'a&b=c', u'\xe9', '.', '..']
 SEGS2 = ['a', 'a?b', '%41']
 QUERIES = ['', 'x=1', 'x=%3F&y=a+b', u'\xe9=1'.encode('utf-8').decode('latin-1'), u'\xe9=1', 'a=%C3%A9&&b']
 ALL_METHODS = ['GET', 'HEAD', 'POST', 'PUT', 'DELETE', 'OPTIONS', 'TRACE', 'CONNECT', 'PATCH']
-SHAPES = ['static', 'single', 'multi', 'typed', 'dotted']
+SHAPES = ['static', 'single', 'multi', 'typed', 'dotted', 'root']
+# root: the pattern '/' of an embedded application - under the prefix it is the branch route '/pre/'
 # dotted: a literal segment containing a regular-expression metacharacter.  Whether '/x/v1-0' reaches the route
 # '/x/v1.0' is outside C05's quantifier (observation O1: literals are not escaped); C07 only asks that *if* it reaches
 # the route the redirect names the canonicalised request path - so for such a path both readings are admissible
@@ -48,11 +49,15 @@ def deadline_passed():
 
 
 def pattern_for(shape, branch):
+    if shape == 'root':
+        return '/'
     base = {'static': '/x', 'single': '/x/<a>', 'multi': '/x/<a+>', 'typed': '/n/<k:int>/t', 'dotted': '/x/v1.0'}[shape]
     return base + ('/' if branch else '')
 
 
 def seg_tuples(shape, tier):
+    if shape == 'root':
+        return [[]]
     if shape == 'static':
         return [['x']]
     if shape == 'single':
@@ -68,6 +73,10 @@ def seg_tuples(shape, tier):
 
 def render_path(segs, defect):
     """The raw decoded path a client asks for."""
+    if not segs:
+        # the mount point itself
+        return {'canonical': '/', 'no-trailing': '', 'double-inside': '//', 'double-last': '//', 'leading-double': '/',
+                'triple-trailing': '///', 'triple-inside': '///'}[defect]
     if defect == 'canonical':
         return '/' + '/'.join(segs) + '/'
     if defect == 'no-trailing':
@@ -93,6 +102,8 @@ def configs():
         for branch in (True, False):
             for mode in MODES:
                 for placement in PLACEMENTS:
+                    if shape == 'root' and (not branch or not placement.startswith('embed')):
+                        continue
                     for methods in (None, ['GET']):
                         out.append((shape, branch, mode, placement, methods))
     return out
@@ -115,7 +126,7 @@ class Harness(object):
         def ep_k(k):
             seen.append({'k': k})
             return Response(json.dumps({'k': k}))
-        self.eps = {'static': ep_static, 'single': ep_a, 'multi': ep_a, 'typed': ep_k, 'dotted': ep_static}
+        self.eps = {'static': ep_static, 'single': ep_a, 'multi': ep_a, 'typed': ep_k, 'dotted': ep_static, 'root': ep_static}
 
     def build(self, cfg):
         from clastic import Application, Route, SubApplication
@@ -133,6 +144,12 @@ class Harness(object):
         if placement == 'route':
             app = Application([], slash_mode=other)
             app.add(Route(pat, ep, methods=methods, slash_mode=mode), inherit_slashes=False)
+            return app, ''
+        if placement == 'cline':
+            # the bottle-like spelling: Cline(slash_mode=...) and its route() method
+            from clastic.cline import Cline
+            app = Cline(slash_mode=mode, autorender=False)
+            app.route(pat, tuple(methods) if methods else None, ep)
             return app, ''
         if placement == 'embed-inherit':
             inner = Application([Route(pat, ep, methods=methods)], slash_mode=other)
